@@ -3,8 +3,11 @@
 # named construct, kind=refactor must stay silent). Edit here, then run this script.
 import json, os
 M = []
-def m(name, rule, props, kind, file, old, new, expect="", quick=False, why=""):
-    M.append(dict(name=name, rule=rule, props=props, kind=kind, file=file, old=old, new=new, expect=expect, quick=quick, why=why))
+def m(name, rule, props, kind, file, old, new, expect="", quick=False, why="", more=None):
+    d = dict(name=name, rule=rule, props=props, kind=kind, file=file, old=old, new=new, expect=expect, quick=quick, why=why)
+    if more:
+        d["more"] = [dict(old=o, new=n) for o, n in more]
+    M.append(d)
 
 BW, TW, WR = "ion/binarywriter.go", "ion/textwriter.go", "ion/writer.go"
 BR, TR, RD = "ion/binaryreader.go", "ion/textreader.go", "ion/reader.go"
@@ -549,6 +552,27 @@ m("escrune-x-escape-as-byte", "TAB-ESCRUNE", ["C02"], "break", TK,
 m("escrune-clob-reads-text-mode", "TAB-ESCRUNE", ["C02", "C07"], "break", TK,
   "\tr, err := t.readEscapedChar(clobText)", "\tr, err := t.readEscapedChar(nonClobText)", "escape mode", True,
   "a clob accepts \\u escapes")
+
+m("encpure-annotation-wrapper-allocates", "OWN-ENCPURE", ["C16", "C18"], "break", MS,
+  "\t\t\tannotations, found := readSubvalue(original, &field)\n\t\t\tif !found {\n\t\t\t\t// Behind a nil embedded pointer: there are no annotations.\n\t\t\t\tcontinue\n\t\t\t}",
+  "\t\t\tannotations, err := findSubvalue(original, &field)\n\t\t\tfound := err == nil\n\t\t\tif !found {\n\t\t\t\tcontinue\n\t\t\t}", "encodeWithAnnotation", True,
+  "marshalling allocates a nil embedded pointer in the caller's value (F35; the seeded changes C16-3 and C16-r3-3 do the same in encodeStruct)")
+m("keyword-version-marker-unquoted", "TAB-KEYWORD", ["C01", "C04"], "break", TU,
+  "\tcase ionVersionMarker:\n\t\t// Unquoted, the text reader takes it for a version marker, not a symbol.\n\t\treturn true\n", "", "version marker", True,
+  "a symbol $ion_1_0 is written unquoted and read back as a version marker (F36)")
+
+LAZY_MORE = [
+  ("\t// Slice the symbols down to size and reindex.\n\tsymbols := s.symbols[:maxID]\n\tindex := buildIndex(symbols, 1)\n\n\treturn &sst{\n\t\tname:    s.name,\n\t\tversion: s.version,\n\t\tsymbols: symbols,\n\t\tindex:   index,\n\t\tmaxID:   maxID,\n\t}",
+   "\treturn &sst{\n\t\tname:    s.name,\n\t\tversion: s.version,\n\t\tsymbols: s.symbols[:maxID],\n\t\tmaxID:   maxID,\n\t}"),
+  ("\tid, ok := s.index[sym]\n\treturn id, ok", "\tid, ok := s.nameIndex()[sym]\n\treturn id, ok"),
+]
+LAZY_OLD = "\tindex := buildIndex(syms, 1)\n\n\treturn &sst{\n\t\tname:    name,\n\t\tversion: version,\n\t\tsymbols: syms,\n\t\tindex:   index,\n\t\tmaxID:   uint64(len(syms)),\n\t}\n}\n"
+LAZY_NEW = "\treturn &sst{\n\t\tname:    name,\n\t\tversion: version,\n\t\tsymbols: syms,\n\t\tmaxID:   uint64(len(syms)),\n\t}\n}\n\nfunc (s *sst) nameIndex() map[string]uint64 {\n\tif s.index == nil {\n\t\ts.index = buildIndex(s.symbols, 1)\n\t}\n\treturn s.index\n}\n"
+for rule, props in [("TAB-INDEXPAIR", ["C09", "C11"]), ("ORD-FIRSTWINS", ["C09"]), ("NUM-INDEX", ["C06"]), ("NUM-NARROW", ["C13"])]:
+    m("lazyindex-refactor-" + rule.lower(), rule, props, "refactor", ST, LAZY_OLD, LAZY_NEW, "", rule == "TAB-INDEXPAIR",
+      "a shared table builds its name index on first use (seeded change C18-r3-2: a data race, reported by OWN-IMMUT, but single-threaded behaviour is unchanged; the first run alarmed here falsely)", more=LAZY_MORE)
+m("lazyindex-race-own-immut", "OWN-IMMUT", ["C18"], "break", ST, LAZY_OLD, LAZY_NEW, "nameIndex", False,
+  "the same edit is a write to a shared table after construction", more=LAZY_MORE)
 
 os.makedirs(os.path.dirname(os.path.abspath(__file__)), exist_ok=True)
 with open(os.path.join(os.path.dirname(os.path.abspath(__file__)), "core.json"), "w") as f:
